@@ -632,7 +632,7 @@ func (s *sim) Apply(op simcore.Op) bool {
 		if n <= 0 || n > 4 || s.grown >= 2 {
 			return false
 		}
-		growChain(s.chain, simcore.NewRNG(uint64(op.Int("seed"))), n, 5, float64(s.cfg.Int("churn"))/100)
+		growChain(s.chain, simcore.NewRNG(uint64(op.Int("seed"))), n, 5, float64(s.cfg.Int("churn"))/100, nil)
 		s.grown++
 		e.Count("op.grow")
 	case "badmsg":
